@@ -303,9 +303,70 @@ def retry_case(kind, j, retry):
     return msgs
 
 
+def retry_budget_case(j, n):
+    """Two executed calls share ONE function object; a custom decorator keeps an attempt budget of n in the wrapper
+    it returns (legal: the decorator is applied per executed call).  Each call fails on its first j attempts."""
+    import uberjob
+
+    attempts = {}
+    decorations = []
+
+    def flaky(key):
+        attempts[key] = attempts.get(key, 0) + 1
+        if attempts[key] <= j:
+            raise Flaky(f"{key}: attempt {attempts[key]}")
+        return key
+
+    def deco(f):
+        decorations.append(getattr(f, "__name__", "?"))
+        left = [n]
+
+        def wrapper(*a, **k):
+            while True:
+                if left[0] <= 0:
+                    raise Flaky("attempt budget of this decoration is exhausted")
+                left[0] -= 1
+                try:
+                    return f(*a, **k)
+                except Flaky:
+                    if left[0] <= 0:
+                        raise
+        return wrapper
+
+    plan = uberjob.Plan()
+    a = plan.call(flaky, "a")
+    b = plan.call(flaky, "b")
+    plan.add_dependency(a, b)
+    msgs = []
+    try:
+        out = uberjob.run(plan, output=[a, b], retry=deco, max_workers=1, progress=None)
+        ok = True
+    except uberjob.CallError as e:
+        ok, out = False, e
+    exp = min(n, j + 1)
+    should_succeed = j < n
+    if should_succeed:
+        if not ok:
+            msgs.append(f"both calls succeed within {n} attempts each, but run raised (cause {out.__cause__!r}); attempts made {attempts}")
+        elif attempts != {"a": exp, "b": exp}:
+            msgs.append(f"attempts made {attempts}, expected {exp} for each call")
+    else:
+        if ok:
+            msgs.append(f"every attempt fails but run returned {out!r}")
+        elif attempts.get("a") != exp:
+            msgs.append(f"call a was attempted {attempts.get('a')} times, expected {exp}")
+    return msgs
+
+
 def check_retry():
     viols = []
     n = 0
+    for j in range(0, 4):
+        for budget in (1, 2, 3):
+            n += 1
+            for m in retry_budget_case(j, budget):
+                viols.append(common.Violation(PROP, f"retry budget per decoration :: {m[:40]}", f"custom decorator with a budget of {budget} attempts per decoration, calls fail on their first {j} attempts: {m}",
+                                              {"engine": "retry-budget", "j": j, "n": budget}))
     for kind in ("call", "read", "write", "mtime"):
         for j in range(0, 5):
             for retry in (1, 2, 3, 4, "custom2", "custom3-wrap"):
@@ -331,6 +392,11 @@ def run(tier):
 
 
 def replay(rep):
+    if rep.get("engine") == "retry-budget":
+        m = retry_budget_case(rep["j"], rep["n"])
+        for x in m:
+            print("ORACLE:", x)
+        return m
     if rep.get("engine") == "retry":
         m = retry_case(rep["kind"], rep["j"], rep["retry"])
         for x in m:
